@@ -1018,3 +1018,42 @@ Proof.
   exists s. split; [eapply run_macro_reach; [apply reach_init|exact E]|].
   vm_compute in E. inversion E; subst. vm_compute. reflexivity.
 Qed.
+
+(** * RimeSyncUserData destroys the sessions BEFORE it schedules its tasks and starts the
+    worker: from its first step to its return no session exists, so the worker it spawns
+    (CSW3 KSync -> ESpawn) starts with an empty session table.  (The worker's own steps never
+    touch the table; sessions are only created by the client between API calls.) *)
+Definition in_sync (p : cpc) : bool :=
+  match p with
+  | CSched _ KSync | CSW0 KSync | CSW1 KSync | CSW2 KSync | CSW3 KSync | CSW4 KSync => true
+  | _ => false
+  end.
+Definition sync_clean (s : state) : Prop := in_sync (cpcs s) = true -> sessions s = [].
+
+Lemma worker_keeps_client : forall c s s', step_worker c s = Some s' -> cpcs s' = cpcs s /\ sessions s' = sessions s.
+Proof.
+  intros c s s' H. step_unfold H. split_step H; finish_step H; cbn; auto;
+    unfold release_w; cbn; destruct (smutex s) as [[|]|]; cbn; auto.
+Qed.
+
+Lemma in_sync_after_sched rs k : in_sync (after_sched rs k) = match k with KSync => true | KMaint => false end.
+Proof. destruct rs, k; reflexivity. Qed.
+
+Lemma sync_clean_step : forall c s t s', sync_clean s -> step c s t = Some s' -> sync_clean s'.
+Proof.
+  intros c s t s' Hinv H. destruct t.
+  - unfold sync_clean in *. step_unfold H. split_step H; finish_step H; cbn in *; intros X;
+      rewrite ?in_sync_after_sched in X;
+      repeat match goal with E : cpcs s = _ |- _ => rewrite E in *; clear E end; cbn in *;
+      try discriminate X; try reflexivity;
+      try (apply Hinv; first [reflexivity | assumption]);
+      try (match goal with k : kont |- _ => destruct k end; cbn in *; try discriminate X; apply Hinv; reflexivity).
+  - cbn [step] in H. destruct (worker_keeps_client c s s' H) as (E1 & E2). unfold sync_clean. rewrite E1, E2. exact Hinv.
+Qed.
+
+Theorem sync_user_data_worker_starts_clean : forall c h0 sc s,
+  reach c h0 sc s -> in_sync (cpcs s) = true -> sessions s = [].
+Proof.
+  intros c h0 sc s Hr. apply (reach_invariant c h0 sc sync_clean); [|apply sync_clean_step|exact Hr].
+  unfold sync_clean. cbn. discriminate.
+Qed.
